@@ -233,3 +233,25 @@ pub async fn compact_now(id: usize) -> Result<bool, String> {
     worker.run().await.map_err(|e| e.to_string())?;
     Ok(true)
 }
+
+// ---------------------------------------------------------------------------------------
+// Constructors for crate-private read-path types, so an external harness can feed generated
+// batches into the real response writers.
+
+/// Wrap a batch receiver into the stream type the response writers consume.
+pub fn query_batch_stream(
+    schema: std::sync::Arc<crate::engine::core::read::flow::BatchSchema>,
+    receiver: crate::engine::core::read::flow::BatchReceiver,
+) -> crate::command::handlers::query_batch_stream::QueryBatchStream {
+    crate::command::handlers::query_batch_stream::QueryBatchStream::new(schema, receiver, Vec::new())
+}
+
+/// Build a `ColumnBatch` from scalar columns (`ColumnBatch::new` is `pub(crate)`).
+pub fn column_batch(
+    schema: std::sync::Arc<crate::engine::core::read::flow::BatchSchema>,
+    columns: Vec<Vec<crate::engine::types::ScalarValue>>,
+    len: usize,
+) -> Result<crate::engine::core::read::flow::ColumnBatch, crate::engine::core::read::flow::BatchError>
+{
+    crate::engine::core::read::flow::ColumnBatch::new(schema, columns, len, None)
+}
